@@ -102,6 +102,39 @@ def seed_models():
                    rl_encode(b"BT /F1 8 Tf (in form) Tj ET")),
     }
     models["filtered-contents"] = dict(objs=s4, root=1, form="table", pack=())
+    # -- S4b: font programs that extraction reads: a TrueType file (cmap format 4 plus a format-6 subtable this reader does not know) behind a CID font
+    #    without ToUnicode, and a Type 1 font file whose header carries the encoding
+    import struct as _st
+
+    def sfnt(tables):
+        n = len(tables)
+        out = _st.pack(">4sHHHH", b"\0\1\0\0", n, 0, 0, 0)
+        off, body = 12 + 16 * n, b""
+        for tag, data in tables:
+            out += _st.pack(">4sLLL", tag, 0, off + len(body), len(data))
+            body += data
+        return out + body
+    ends, starts, deltas, offs = [66, 0xFFFF], [65, 0xFFFF], [(-64) & 0xFFFF, 1], [0, 0]
+    sub4 = _st.pack(">HHHHHHH", 4, 0, 0, 4, 0, 0, 0) + b"".join(_st.pack(">H", e) for e in ends) + b"\0\0" + b"".join(_st.pack(">H", x) for x in starts) \
+        + b"".join(_st.pack(">H", x) for x in deltas) + b"".join(_st.pack(">H", x) for x in offs)
+    sub6 = _st.pack(">HHHHH", 6, 14, 0, 65, 2) + _st.pack(">HH", 1, 2)
+    cmap = _st.pack(">HH", 0, 2) + _st.pack(">HHL", 3, 1, 20) + _st.pack(">HHL", 0, 3, 20 + len(sub4)) + sub4 + sub6
+    t1 = b"%!PS-AdobeFont-1.0: Demo\n/Encoding 256 array 0 1 255 {1 index exch /.notdef put} for dup 65 /alpha put dup 66 /beta put readonly def\ncurrentdict end\ncurrentfile eexec\n"
+    s4b = {
+        1: {"Type": Name("Catalog"), "Pages": Ref(2)},
+        2: {"Type": Name("Pages"), "Kids": [Ref(3)], "Count": 1},
+        3: {"Type": Name("Page"), "Parent": Ref(2), "MediaBox": [0, 0, 300, 300], "Contents": Ref(4), "Resources": {"Font": {"F1": Ref(5), "F2": Ref(10)}}},
+        4: Stream({}, b"BT /F1 12 Tf 20 200 Td <00010002> Tj /F2 12 Tf (AB) Tj ET"),
+        5: {"Type": Name("Font"), "Subtype": Name("Type0"), "BaseFont": Name("T"), "Encoding": Name("Identity-H"), "DescendantFonts": [Ref(6)]},
+        6: {"Type": Name("Font"), "Subtype": Name("CIDFontType2"), "BaseFont": Name("T"), "CIDSystemInfo": {"Registry": "Adobe", "Ordering": "Identity", "Supplement": 0},
+            "FontDescriptor": Ref(8), "DW": 500},
+        8: dict(FD, FontFile2=Ref(9)),
+        9: Stream({}, sfnt([(b"cmap", cmap)])),
+        10: {"Type": Name("Font"), "Subtype": Name("Type1"), "BaseFont": Name("Demo"), "FirstChar": 65, "Widths": [500, 500], "FontDescriptor": Ref(11)},
+        11: dict(FD, FontFile=Ref(12)),
+        12: Stream({"Length1": len(t1), "Length2": 0, "Length3": 0}, t1),
+    }
+    models["font-programs"] = dict(objs=s4b, root=1, form="table", pack=())
     # -- S5..S7: encrypted documents that open with the empty user password (RC4-128 revision 3, AES-128 revision 4, AES-256 revision 6): every entry of the
     #    encryption dictionary is a fault site, and so are the encrypted payloads
     from specs import pdfcrypt as PC
@@ -185,8 +218,22 @@ def apply_fault(objs, num, path, kind, value):
             "data-garbage": bytes(g.randrange(256) for _ in range(len(d))), "data-garbage-2": bytes(g.randrange(256) for _ in range(max(1, len(d) // 3))),
             "data-all-ff": b"\xff" * len(d), "data-all-zero": b"\x00" * len(d),
             "data-empty": b""}
+        if kind.startswith("data-random-"):
+            # seeded random damage: a few flipped bytes, a cut at a random point, or a random replacement of a random stretch
+            g2 = _random.Random(num * 104729 + int(kind.split("-")[-1]) * 31 + len(d))
+            b = bytearray(d)
+            mode = g2.choice(["flip", "flip", "cut", "stretch"])
+            if mode == "flip" and b:
+                for _ in range(g2.randint(1, 4)):
+                    b[g2.randrange(len(b))] = g2.randrange(256)
+            elif mode == "cut":
+                b = b[:g2.randrange(len(b) + 1)]
+            elif b:
+                i0 = g2.randrange(len(b)); i1 = min(len(b), i0 + g2.randint(1, 12))
+                b[i0:i1] = bytes(g2.randrange(256) for _ in range(g2.randint(0, 12)))
+            variants[kind] = bytes(b)
         parent.data = variants[kind]
-        if kind.startswith("data-truncate") or kind == "data-empty" or kind == "data-garbage-2":
+        if kind.startswith("data-truncate") or kind == "data-empty" or kind == "data-garbage-2" or kind.startswith("data-random-"):
             parent.d.pop("Length", None)
         return o
     if len(path) == 0:
@@ -298,7 +345,7 @@ def _(tier, seed):
             return dict(evaluations=evals, distinct=0, failures=failures)
         for num, path in sites(m["objs"]):
             if path and path[-1] == "<data>":
-                for k in DATA_FAULTS:
+                for k in DATA_FAULTS + tuple("data-random-%d" % j for j in range(6 if tier == "quick" else 60)):
                     cases.append((nm, num, path, k, None, None))
             else:
                 for vn, v in fault_values(num):
@@ -349,7 +396,7 @@ def _(tier, seed):
                 continue
             desc = "object %d %s: %s%s" % (num, "/".join(map(str, path)), kind, "" if vn is None else " by " + vn)
         evals += 1
-        kinds.add((nm, kind, vn if kind == "replace" else None))
+        kinds.add((nm, kind if not kind.startswith("data-random-") else "data-random", vn if kind == "replace" else None))
         r = run_entry_points(data, which=(0,), trace=False) if is_light else run_entry_points(data)
         if r is not None:
             key = (r[1].split(":")[0], r[2])
